@@ -94,7 +94,11 @@ def plot_diagrams(
     # clever bounding boxes of the diagram
     if not xy_range:
         # define bounds of diagram
-        ax_min, ax_max = np.min(finite_dgms), np.max(finite_dgms)
+        if finite_dgms.size > 0:
+            ax_min, ax_max = np.min(finite_dgms), np.max(finite_dgms)
+        else:
+            # no finite coordinate to bound the view with (empty diagrams)
+            ax_min, ax_max = 0.0, 1.0
         x_r = ax_max - ax_min
 
         # Give plot a nice buffer on all sides.
